@@ -221,9 +221,14 @@ impl Log {
 
     /// A panic inside a call that the property says must return.
     pub fn panic_violation(&mut self, sig_prefix: &str, p: &str) {
+        self.panic_violation_ctx(sig_prefix, "", p)
+    }
+    /// `ctx` describes where in the case the panic happened (not part of the signature).
+    pub fn panic_violation_ctx(&mut self, sig_prefix: &str, ctx: &str, p: &str) {
         self.panics += 1;
         let sig = format!("{}|{}", sig_prefix, panic_sig(p));
-        self.violation(&sig, p);
+        let detail = if ctx.is_empty() { p.to_string() } else { format!("{}: {}", ctx, p) };
+        self.violation(&sig, &detail);
     }
 
     pub fn finish(mut self) -> u64 {
